@@ -1488,3 +1488,34 @@ package sarama
 //@   ensures[promise_id] err == nil && promiseResponse ==> promise != nil && promise.correlationID == old(b.correlationID)
 //@   ensures[no_promise] err != nil || !promiseResponse ==> promise == nil
 //@   nosafety
+
+// ---------------------------------------------------------------------------------------------
+// client.go (C15: metadata answers reflect the latest cluster metadata)
+
+//@ guarded client.lock: metadata, brokers, cachedPartitionsResults, metadataTopics, controllerID
+
+// opening a broker connection touches no client metadata (A-own)
+//@ func (b *Broker) Open(conf) trusted
+//@   returns err
+//@   modifies nothing
+
+//@ func (client *client) cachedLeader(topic, partitionID) props C15
+//@   returns b, err
+//@   ensures[leader_from_metadata] err == nil ==> client.metadata[topic] != nil && haskey(client.metadata[topic], partitionID) && client.metadata[topic][partitionID].Err != ErrLeaderNotAvailable && b != nil && b == client.brokers[client.metadata[topic][partitionID].Leader]
+//@   ensures[unknown_leader_is_unavailable] client.metadata[topic] != nil && haskey(client.metadata[topic], partitionID) && (client.metadata[topic][partitionID].Err == ErrLeaderNotAvailable || client.brokers[client.metadata[topic][partitionID].Leader] == nil) ==> b == nil && err == ErrLeaderNotAvailable
+//@   ensures[unknown_partition] client.metadata[topic] == nil || !haskey(client.metadata[topic], partitionID) ==> b == nil && err == ErrUnknownTopicOrPartition
+
+// setPartitionCache: exactly the partition ids of the topic (writable: those whose leader is available), sorted.
+// Assumes the metadata map is keyed by partition id (established by updateMetadata: metadata[t][p.ID] = p).
+//@ func (client *client) setPartitionCache(topic, partitionSet) props C15 C17
+//@   returns ret
+//@   requires lockheld(client.lock)
+//@   requires client.metadata[topic] != nil ==> forall p int32 :: haskey(client.metadata[topic], p) ==> client.metadata[topic][p] != nil && client.metadata[topic][p].ID == p
+//@   ensures[sorted] forall a, b :: 0 <= a && a < b && b < len(ret) ==> ret[a] <= ret[b]
+//@   ensures[only_known] client.metadata[topic] != nil ==> forall k :: 0 <= k && k < len(ret) ==> haskey(client.metadata[topic], ret[k]) && (partitionSet == writablePartitions ==> client.metadata[topic][ret[k]].Err != ErrLeaderNotAvailable)
+//@   ensures[all_listed] client.metadata[topic] != nil ==> forall p int32 :: haskey(client.metadata[topic], p) && !(partitionSet == writablePartitions && client.metadata[topic][p].Err == ErrLeaderNotAvailable) ==> exists k :: 0 <= k && k < len(ret) && ret[k] == p
+//@   ensures[none_without_metadata] client.metadata[topic] == nil ==> isnil(ret)
+//@   loop 0: invariant forall k :: 0 <= k && k < len(ret) ==> $visited[ret[k]] && haskey(client.metadata[topic], ret[k]) && (partitionSet == writablePartitions ==> client.metadata[topic][ret[k]].Err != ErrLeaderNotAvailable)
+//@   loop 0: invariant forall p int32 :: $visited[p] && !(partitionSet == writablePartitions && client.metadata[topic][p].Err == ErrLeaderNotAvailable) ==> exists k :: 0 <= k && k < len(ret) && ret[k] == p
+//@   loop 0: invariant forall p int32 :: $visited[p] ==> haskey(client.metadata[topic], p)
+//@   nosafety
